@@ -45,7 +45,8 @@ RULE = ('cases 0..2600: the SINGLE-DAMAGE MATRIX - every alien expression (ill-t
         'the invocation is repeated with an OSError injected at every call index x {EIO, ENOSPC, EACCES, '
         'EMFILE}, plus variants with a missing input, a directory as input/output and undecodable input bytes. '
         'Under an injected write/close failure a partial output file is tolerated, a zero exit status or a '
-        'traceback is not. Every 40th case is also run through a real `python -m hidc` subprocess in a scratch '
+        'traceback is not. Without -o the run is repeated with a standard output that is full (OSError) and one '
+        'that cannot encode the message (UnicodeEncodeError): no traceback, and no failure status with the file left. Every 40th case is also run through a real `python -m hidc` subprocess in a scratch '
         'directory to show that the fake and the real file system agree. distinct = hash(source, options); '
         'non-trivial = the CLI ran and at least one I/O fault position was enumerated or the input was not a '
         'plain valid program.')
@@ -527,7 +528,8 @@ def looks_like_traceback(text):
     return 'Traceback (most recent call last)' in text
 
 
-def cli_oracle(data, opts, expected_asm, accepted, plan=None, inp_missing=False, inp_dir=False, out_dir=False):
+def cli_oracle(data, opts, expected_asm, accepted, plan=None, inp_missing=False, inp_dir=False, out_dir=False,
+               stdout_fault=None):
     """Run the CLI on the fake fs; -> (violations, CliResult)"""
     out = []
     files = {} if inp_missing else {'in.hid': data}
@@ -539,8 +541,10 @@ def cli_oracle(data, opts, expected_asm, accepted, plan=None, inp_missing=False,
     if out_dir:
         dirs.add(outname)
     fs = FakeFS(files, dirs, plan or FaultPlan())
-    r = run_cli(cli_args(opts), fs)
+    r = run_cli(cli_args(opts), fs, stdout_fault=stdout_fault)
     fired = fs.plan.fired
+    if stdout_fault and getattr(r.stdout_obj, 'fired', False) and fired is None:
+        fired = ('stdout', stdout_fault)
     if r.exception is not None:
         out.append(('cli-traceback', f'{type(r.exception).__name__}: {r.exception} escaped main() '
                                      f'(args {cli_args(opts)}, fault {fired})'))
@@ -686,6 +690,15 @@ def _judge(kind, payload, opts, idx, enumerate_faults=True, cross_check=False):
                     break
             if viol:
                 break
+        if not viol and not opts.get('o'):
+            # the "written to ..." message goes to standard output only without -o: a full or non-encoding stdout
+            # must neither produce a traceback nor turn a finished build into a failure that leaves its file behind
+            for sf in ('oserror', 'encode'):
+                v, r = cli_oracle(data, opts, asm, accepted, FaultPlan(), stdout_fault=sf)
+                stats['fault_points'] += 1
+                if getattr(r.stdout_obj, 'fired', False):
+                    stats['faults']['stdout:' + sf] = stats['faults'].get('stdout:' + sf, 0) + 1
+                viol += [(c, d, {'stdout_fault': sf}) for c, d in v]
         if not viol:
             for variant in ('inp_missing', 'inp_dir', 'out_dir'):
                 v, r = cli_oracle(data, opts, asm, accepted, FaultPlan(), **{variant: True})
